@@ -18,6 +18,13 @@ pub struct Prepared {
 
 pub fn prepare(tapes: &Tapes, dom: &Domain, surf: &SurfaceCfg) -> Prepared {
     let mut t = Tape::new(&tapes.a);
+    let small;
+    let dom = if tapes.small {
+        small = dom.small();
+        &small
+    } else {
+        dom
+    };
     let case = decode_case(&mut t, dom);
     let (bytes, values, ser) = serialize_docs(&case.docs, &tapes.b, surf);
     Prepared { case, bytes, values, ser }
